@@ -11,6 +11,7 @@ import (
 	"path/filepath"
 	"sort"
 	"strings"
+	"sync/atomic"
 	"testing"
 
 	"golang.org/x/telemetry/internal/verifrt"
@@ -357,6 +358,37 @@ func TestVerifC18(t *testing.T) {
 					bad = true
 				}
 				fmt.Fprintf(&sig, "r(%s);", name)
+			case k < 7 && rnd.Intn(4) == 0: // copy from an object that does not exist
+				src := "never/stored/" + names[rnd.Intn(len(names))]
+				err := Copy(ctx, bh.Object(name), other.Object(src))
+				res.Hit("copy-from-absent-source")
+				if err == nil {
+					res.Violate("copy-of-absent-succeeded", fmt.Sprintf("Copy(%q <- absent %q) reported success", name, src), rp)
+					bad = true
+					break
+				}
+				// the failed copy stored nothing: the destination is what it was
+				rd, rerr := bh.Object(name).NewReader(ctx)
+				if want, ok := model[name]; ok {
+					var got []byte
+					if rerr == nil {
+						got, _ = io.ReadAll(rd)
+						rd.Close()
+					}
+					if rerr != nil || string(got) != string(want) {
+						res.Violate("roundtrip:after-failed-copy", fmt.Sprintf("object %q: %d bytes had been written; after a copy from an absent source failed it reads %d bytes (err %v)", name, len(want), len(got), rerr), rp)
+						bad = true
+					}
+				} else {
+					if rd != nil {
+						rd.Close()
+					}
+					if !errors.Is(rerr, ErrObjectNotExist) {
+						res.Violate("absent-not-notexist:after-failed-copy", fmt.Sprintf("object %q was never stored; after a copy from an absent source failed, reading it gives err=%v", name, rerr), rp)
+						bad = true
+					}
+				}
+				fmt.Fprintf(&sig, "cx(%s);", name)
 			case k < 7: // copy from another bucket
 				src := names[rnd.Intn(len(names))]
 				content := rnd.Bytes(rnd.Intn(500))
@@ -395,6 +427,39 @@ func TestVerifC18(t *testing.T) {
 					prefix = "nomatch/" + name
 				default:
 					prefix = c18Components[rnd.Intn(len(c18Components))][:1]
+				}
+				if rnd.Intn(5) == 0 {
+					// a listing under a context that is cancelled before it starts or while
+					// it runs: it may fail, but if it ends without an error it is complete
+					cctx := &c18Ctx{Context: ctx, after: int64(rnd.Intn(12))}
+					it := bh.Objects(cctx, prefix)
+					var got []string
+					var lerr error
+					for {
+						n, err := it.Next()
+						if err != nil {
+							if !errors.Is(err, ErrObjectIteratorDone) {
+								lerr = err
+							}
+							break
+						}
+						got = append(got, n)
+					}
+					res.Hit("listing-under-cancelled-context")
+					if lerr == nil {
+						var want []string
+						for n := range model {
+							if strings.HasPrefix(n, prefix) {
+								want = append(want, n)
+							}
+						}
+						sort.Strings(want)
+						sort.Strings(got)
+						if strings.Join(got, "\x00") != strings.Join(want, "\x00") {
+							res.Violate("list-mismatch:cancelled-context", fmt.Sprintf("listing %q under a context cancelled after %d polls ended without an error with %d of %d names", prefix, cctx.after, len(got), len(want)), rp)
+							bad = true
+						}
+					}
 				}
 				if prefix != "" {
 					prefixed = true
@@ -460,8 +525,30 @@ func TestVerifC18(t *testing.T) {
 		}
 		os.RemoveAll(root)
 	}
-	res.Require("bucket-directory-is-a-symlink", "two-writers-at-once", "overlapping-listings", "list-during-write", "overwrite-shorter", "read-absent", "read-absent:below-an-object", "read-absent:directory-of-objects", "list", "list-deeply-nested")
+	res.Require("bucket-directory-is-a-symlink", "two-writers-at-once", "overlapping-listings", "list-during-write", "copy-from-absent-source", "listing-under-cancelled-context", "overwrite-shorter", "read-absent", "read-absent:below-an-object", "read-absent:directory-of-objects", "list", "list-deeply-nested")
 	if err := res.Write(); err != nil {
 		t.Fatal(err)
 	}
+}
+
+// c18Ctx is a context that reports cancellation from its after-th poll on.
+type c18Ctx struct {
+	context.Context
+	after int64
+	polls atomic.Int64
+}
+
+func (c *c18Ctx) Err() error {
+	if c.polls.Add(1) > c.after {
+		return context.Canceled
+	}
+	return nil
+}
+
+func (c *c18Ctx) Done() <-chan struct{} {
+	ch := make(chan struct{})
+	if c.polls.Load() >= c.after {
+		close(ch)
+	}
+	return ch
 }
